@@ -39,6 +39,10 @@ def case_reset(idx):
     _n[0] = 100 + idx * 1000
 
 
+class OddValue(Exception):
+    pass
+
+
 def nxt():
     _n[0] += 1
     return _n[0]
@@ -196,7 +200,17 @@ def run_case(idx, rng, P, rep):
         v = param.Number(default=2.0)
         t = param.String(default='a0')
 
+    class Even(param.Parameter):
+        """A user-defined Parameter type; it refuses odd numbers with an exception type of its own."""
+        def _validate_value(self, val, allow_None):
+            if not isinstance(val, int) or val % 2:
+                raise OddValue(f'{val!r} is not an even integer')
+
+        def _validate(self, val):
+            self._validate_value(val, self.allow_None)
+
     class Tgt(param.Parameterized):
+        ev = Even(default=2)
         x = param.Number(default=1.0, bounds=(0, 10), allow_refs=True)
         y = param.Number(default=1.5, bounds=(0, 10), inclusive_bounds=(True, False), allow_refs=True)
         s = param.String(default='a', regex='^a', allow_refs=True)
@@ -296,10 +310,10 @@ def run_case(idx, rng, P, rep):
                        'unchecked-selector'])
     route = rng.choice(['inst', 'inst', 'update1', 'updateN', 'class'])
     if kind == 'plain-invalid':
-        tp = rng.choice(['x', 'y', 's', 'sel', 'nanp'])
+        tp = rng.choice(['x', 'y', 's', 'sel', 'nanp', 'ev'])
         # (a complex number is a number: comparing it with the bounds is what fails, with a TypeError)
         bad = {'x': rng.choice([99, -1, 'str', float('nan'), 1 + 2j]), 'y': rng.choice([10, 'str', 2j]), 's': rng.choice(['zzz', 5]),
-               'sel': 'outsider', 'nanp': rng.choice(['str', [1]])}[tp]
+               'sel': 'outsider', 'nanp': rng.choice(['str', [1]]), 'ev': rng.choice([3, 'odd', 7])}[tp]
     elif kind == 'ref-invalid':
         tp = rng.choice(['x', 'y', 's'])
         src = rng.choice([s1, s2])
@@ -352,7 +366,7 @@ def run_case(idx, rng, P, rep):
                 snap[('val', k, p)] = id(getattr(o, p))
             ws = o.param.watchers
             snap[('watchers', k)] = tuple(sorted((p, what, tuple(id(w) for w in lst)) for p, d in ws.items() for what, lst in d.items()))
-        for p in ('x', 'y', 's', 'sel', 'c', 'r', 'plain', 'csel', 'rsel', 'nanp'):
+        for p in ('x', 'y', 's', 'sel', 'c', 'r', 'plain', 'csel', 'rsel', 'nanp', 'ev'):
             snap[('clsval', p)] = id(getattr(Tgt, p))
             snap[('clsflags', p)] = (Tgt.param[p].constant, Tgt.param[p].readonly)
         return snap
@@ -378,7 +392,7 @@ def run_case(idx, rng, P, rep):
             items = others[:pos] + [(tp, bad)] + others[pos:]
             applied_before_bad = [k for k, _ in items[:pos]]
             t.param.update(dict(items))
-    except (ValueError, TypeError) as e:
+    except (ValueError, TypeError, OddValue) as e:
         raised = e
     desc = dict(kind=kind, route=route, target_param=tp, value=repr(bad)[:60], history=hist, links={k: (v[1]) for k, v in links.items()},
                 applied_before_bad=applied_before_bad)
@@ -408,9 +422,9 @@ def run_case(idx, rng, P, rep):
     if len(cls_log) != n_cls:
         viol('watcher-invoked', f'a class-level watcher was invoked during the rejected attempt: {cls_log[n_cls:]}')
     # ---- a subclass that never got a value of its own keeps following its parent class, as before the attempt
-    if route == 'class' and tp in ('x', 'y', 's', 'sel', 'nanp'):
+    if route == 'class' and tp in ('x', 'y', 's', 'sel', 'nanp', 'ev'):
         rep.count('class_route_follow_probes')
-        probe_v = {'x': 6.5, 'y': 7.5, 's': 'afollow', 'sel': 'w', 'nanp': 8.5}[tp]
+        probe_v = {'x': 6.5, 'y': 7.5, 's': 'afollow', 'sel': 'w', 'nanp': 8.5, 'ev': 8}[tp]
         was = getattr(Tgt, tp)
         try:
             setattr(Tgt, tp, probe_v)
